@@ -214,9 +214,16 @@ pub struct Runner<'a> {
     pub check_notifications: bool,
 }
 
+thread_local! {
+    /// the model as it stands after the last history that ran to its end without a disagreement
+    /// (with the evictions it adopted on the way)
+    static LAST_MODEL: std::cell::RefCell<Option<Model>> = const { std::cell::RefCell::new(None) };
+}
+
 /// Run one history against the real Subject and the model, comparing after every step.
 /// Returns Err((signature, detail, step)) at the first disagreement.
 fn run_history(rep: &mut Report, limit: u8, ops: &[Op], paths: &[String], check_notifications: bool, which: &str) -> Result<(), (String, String, usize)> {
+    LAST_MODEL.with(|l| *l.borrow_mut() = None);
     let mut s: Subject<Ep> = Subject::default();
     s.set_unacknowledged_limit(limit);
     let follow = which == "C14";
@@ -327,6 +334,7 @@ fn run_history(rep: &mut Report, limit: u8, ops: &[Op], paths: &[String], check_
             }
         }
     }
+    LAST_MODEL.with(|l| *l.borrow_mut() = Some(m));
     Ok(())
 }
 
@@ -735,10 +743,11 @@ pub fn run_observe(ctx: &mut Ctx, which: &str) {
 
 fn probe_check(rep: &mut Report, limit: u8, ops: &[Op], paths: &[String]) {
     // model's expectation of how many further confirmable rounds an observer survives
-    let mut m = Model { res: BTreeMap::new(), limit: limit as u32, follow_evictions: false };
-    for op in ops {
-        m.apply(op);
-    }
+    // (the model of the run that just held: it may have adopted evictions at set_limit steps)
+    let m = match LAST_MODEL.with(|l| l.borrow().clone()) {
+        Some(m) if !m.follow_evictions => m,
+        _ => return,
+    };
     for path in paths {
         if let Some(l) = m.res.get(path) {
             for o in l {
@@ -746,6 +755,8 @@ fn probe_check(rep: &mut Report, limit: u8, ops: &[Op], paths: &[String]) {
                 let want = (m.limit + 1).saturating_sub(o.unack).max(1);
                 match guard(|| probe_remaining(limit, ops, path, o.ep)) {
                     Ok(Some(got)) if got == want => rep.count("probes_agree"),
+                    // above a lowered limit: gone already, or at the next round
+                    Ok(None) if o.unack > m.limit => rep.count("probes_agree"),
                     Ok(got) => rep.violation("probe-remaining-budget", format!("observer ep{} on {:?}: disappears after {:?} further confirmable rounds, model says {}", o.ep, path, got, want), history_text(limit, ops)),
                     Err(p) => rep.violation(&p.sig(), p.text(), history_text(limit, ops)),
                 }
